@@ -6,6 +6,7 @@ import (
 	"fmt"
 	"os"
 	"strings"
+	"sync/atomic"
 	"time"
 
 	"verif/internal/fw"
@@ -66,6 +67,8 @@ type c01Run struct {
 	fail            func(sig, desc string)
 	base            string // initial application state
 	nRemote, nLocal int
+	nIdentify       int
+	gate            chan struct{} // released at the end of the history: a blocked identify callback
 }
 
 func (r *c01Run) conn(name string) *c01Conn {
@@ -247,6 +250,90 @@ func (r *c01Run) step(ev string) bool {
 				break
 			}
 			time.Sleep(5 * time.Millisecond)
+		}
+	case "return-from-own-port-while-identify-runs":
+		// POST /identify is served to anybody and runs the application's identify callbacks. The adversary sends it on a
+		// connection while the application's callback is slow, resets the connection and connects again from the same
+		// source address and port; then the callback returns and the accessory closes the OLD connection. Whatever that
+		// removes, the new connection has not verified.
+		if r.gate != nil {
+			return r.after(ev) // once per history
+		}
+		r.gate = make(chan struct{})
+		gate, entered := r.gate, make(chan struct{}, 1)
+		first := true
+		r.b.Bridge.OnIdentify(func() {
+			if first {
+				first = false
+				entered <- struct{}{}
+				<-gate
+			}
+		})
+		// (the connection it does this on comes from a port that can be bound again)
+		cn.k.Close()
+		cn.dead = true
+		rk, rerr := refctl.DialRebindable(r.b.W.Addr)
+		if rerr != nil {
+			close(gate)
+			return r.after(ev)
+		}
+		r.b.conns = append(r.b.conns, rk)
+		cn = &c01Conn{k: rk}
+		r.conns[who] = cn
+		if err := cn.k.Send(refctl.BuildRequest("POST", "/identify", "", nil)); err != nil {
+			cn.dead = true
+			close(gate)
+			return r.after(ev)
+		}
+		select {
+		case <-entered:
+		case <-time.After(3 * time.Second):
+			r.c.Note("identify callback was not entered")
+			close(gate)
+			return r.after(ev)
+		}
+		// (identify is open to anybody: its counter is taken as observed)
+		now := int(atomic.LoadInt32(&r.b.identify))
+		r.base = strings.Replace(r.base, fmt.Sprintf("identify=%d ", r.nIdentify), fmt.Sprintf("identify=%d ", now), 1)
+		r.nIdentify = now
+		local := cn.k.Local
+		cn.k.Close()
+		cn.dead = true
+		for attempt := 0; attempt < 5; attempt++ {
+			k, err := refctl.DialFrom(r.b.W.Addr, local)
+			if err == nil {
+				r.b.conns = append(r.b.conns, k)
+				r.conns[who] = &c01Conn{k: k}
+				break
+			}
+			if attempt == 4 {
+				r.c.Note("return-from-own-port: could not connect from " + local + ": " + err.Error())
+				if os.Getenv("C01_DEBUG") != "" {
+					fmt.Fprintln(os.Stderr, "return-from-own-port failed", local, err)
+				}
+			}
+			time.Sleep(5 * time.Millisecond)
+		}
+		time.Sleep(5 * time.Millisecond) // the new connection is accepted and registered
+		close(gate)
+		time.Sleep(30 * time.Millisecond) // the old handler has returned and the old connection has been closed
+		// at once, before anything else is sent on it: the attribute database and a pairing request on the new connection
+		if ncn := r.conns[who]; ncn != nil && !ncn.dead {
+			m, evs, err := ncn.k.Do("GET", "/accessories", "", nil)
+			if err != nil {
+				ncn.dead = true
+			} else if !r.refused(who, "get-accessories-after-return", m, evs, err) {
+				return false
+			}
+		}
+		if ncn := r.conns[who]; ncn != nil && !ncn.dead {
+			path, ctype, body := c01Target("pairings-add", aid, iid, false)
+			m, evs, err := ncn.k.Do("POST", path, ctype, body)
+			if err != nil {
+				ncn.dead = true
+			} else if !r.refused(who, "pairings-add-after-return", m, evs, err) {
+				return false
+			}
 		}
 	case "return-from-own-port-while-old-handler-runs":
 		// the adversary starts a request whose handler waits for the body (Expect: 100-continue), resets that connection
@@ -556,6 +643,8 @@ func c01Run1(c *fw.Ctx) {
 	// fixed short histories around two more adversary operations
 	for i, h := range [][]string{
 		{"X1:return-from-own-port-while-old-handler-runs", "X1:get-accessories", "X1:pairings-add"},
+		{"X1:return-from-own-port-while-identify-runs", "X1:get-accessories", "X1:pairings-add"},
+		{"L:verify", "L:subscribe", "X1:return-from-own-port-while-identify-runs", "app:set", "X1:get-accessories", "X1:put-value", "X1:pairings-remove-L"},
 		{"L:verify", "L:subscribe", "X1:return-from-own-port-while-old-handler-runs", "app:set", "X1:get-accessories", "X1:put-value"},
 		{"X1:get-accessories", "X1:return-from-own-port-while-old-handler-runs", "X1:get-characteristics"},
 		{"X1:finish-naming-accessory-signed-with-zero-seed-key-then-ciphertext"},
